@@ -25,10 +25,8 @@ CFG = """CONSTANTS
   TxMds = %(txmds)s
   MaxTx = %(maxtx)d
   MaxEntries = %(maxent)d
-  MaxBulk = %(bulk)d
-  AliasKeys = %(alias)s
-  BulkStartInInjective = %(bstart)s
-  ReadonlyTombMd = %(rotomb)s
+  BulkChoices = %(bulks)s
+  Switches = %(switches)s
   Export = %(export)s
   EmitDepth = %(emit)d
   NReads = %(nreads)d
@@ -38,7 +36,7 @@ CFG = """CONSTANTS
 CHECK_DEADLOCK FALSE
 """
 BASE = dict(layout="PI", keyset="k3", kinds='{"val", "del", "nix", "fut"}', vals="{1, 2}", txmds="{FALSE}", maxtx=2, maxent=2,
-            bulk=3, alias="FALSE", bstart="FALSE", rotomb="FALSE", export="FALSE", emit=0, nreads=0, tail="")
+            bulks="{3}", switches='{"none"}', export="FALSE", emit=0, nreads=0, tail="")
 MC_TAIL = "SPECIFICATION SpecMC\nINVARIANTS TypeOK %s RefMonotone RefInjectiveSound RefHistoryOrdered\nVIEW View"
 RZ_TAIL = "SPECIFICATION SpecRz\nINVARIANTS TypeOK MapAgreesX\nVIEW View"
 SIM_TAIL = "SPECIFICATION SpecSim\nINVARIANTS TypeOK Emit"
@@ -57,12 +55,12 @@ import time
 T0 = time.time()
 
 
-def tlc(wd, name, module, text, workers, timeout, extra=(), env=None):
+def tlc(wd, name, module, text, workers, timeout, extra=(), env=None, javaopts=None):
     sub = os.path.join(wd, name)
     os.makedirs(sub, exist_ok=True)
     t = time.time()
     res = vlib.run_tlc(module, "c04.cfg", workdir=sub, workers=workers, timeout=timeout, extra=list(extra), env=env,
-                       files=[("c04.cfg", text)])
+                       files=[("c04.cfg", text)], javaopts=javaopts)
     vlib.log("[tlc] %-18s %6.1fs (started +%.0fs) states=%d" % (name, time.time() - t, t - T0, res.distinct))
     return res
 
@@ -105,36 +103,32 @@ def run(chk, args):
         mc += [("mc-PI-3x2", dict(maxtx=3, maxent=2, kinds='{"val", "del", "nix"}'), "MapAgrees", 8, 2400),
                ("mc-PI-4x1", dict(maxtx=4, maxent=1), "MapAgrees", 4, 2400),
                ("mc-PI-2x2-reads", dict(maxtx=2, maxent=2, kinds='{"val", "del", "nix", "fut", "past"}'), "IndexAgrees", 4, 2400),
-               ("mc-P-3x2", dict(layout="P", keyset="k3p", maxtx=3, maxent=2, kinds='{"val", "del", "nix"}', vals="{1}"), "MapAgrees", 4, 2400),
+               ("mc-P-3x2", dict(layout="P", keyset="k3p", maxtx=3, maxent=2, kinds='{"val", "del", "nix"}', vals="{1}"), "IndexAgrees", 4, 2400),
                ("mc-PPI-2x2", dict(layout="PPI", keyset="k3", maxtx=2, maxent=2, kinds='{"val", "del", "nix"}'), "MapAgrees", 4, 2400)]
     else:
-        mc += [("mc-PI-2x2", dict(maxtx=2, maxent=2), "MapAgrees", 3, 400),
-               ("mc-PI-3x1", dict(maxtx=3, maxent=1, kinds='{"val", "del", "nix"}'), "MapAgrees", 3, 400),
-               ("mc-PI-2x1-reads", dict(maxtx=2, maxent=1, kinds='{"val", "del", "nix", "fut", "past"}'), "IndexAgrees", 2, 400),
-               ("mc-P-2x2", dict(layout="P", keyset="k3p", maxtx=2, maxent=2, kinds='{"val", "del", "nix"}', vals="{1}"), "MapAgrees", 2, 400)]
+        mc += [("mc-PI-2x2", dict(maxtx=2, maxent=2, kinds='{"val", "del", "nix"}'), "IndexAgrees", 4, 500),
+               ("mc-P-2x2", dict(layout="P", keyset="k3p", maxtx=2, maxent=2, kinds='{"val", "del", "nix"}', vals="{1}"), "IndexAgrees", 2, 500)]
     for name, kw, inv, workers, to in mc:
         jobs[name] = pool.submit(tlc, wd, name, "MCIndex", cfg(tail=MC_TAIL % inv, **kw), workers, to)
 
     # ---------------------------------------------------------------- (2) the code as pinned: one switch at a time
-    pinned = [("pin-alias", dict(alias="TRUE", maxtx=2, maxent=1, kinds='{"val"}', vals="{1}", bulk=2)),
-              ("pin-bulkstart", dict(bstart="TRUE", maxtx=2, maxent=1, kinds='{"val"}', bulk=2)),
-              ("pin-rotomb", dict(rotomb="TRUE", maxtx=2, maxent=1, kinds='{"val", "fut"}', bulk=1))]
-    for name, kw in pinned:
-        jobs[name] = pool.submit(tlc, wd, name, "MCIndex", cfg(tail=RZ_TAIL, export="TRUE", **kw), 1, 400)
+    pinned = ["alias", "bulkstart", "rotomb"]
+    jobs["pinned"] = pool.submit(tlc, wd, "pinned", "MCIndex",
+                                 cfg(tail=RZ_TAIL, export="TRUE", switches='{"alias", "bulkstart", "rotomb"}', bulks="{1, 2}", maxtx=2, maxent=1,
+                                     kinds='{"val", "fut"}'), 1, 500)
 
     # ---------------------------------------------------------------- (3) simulated behaviours per bulk class
     if thorough:
-        sims = [("PI", "k6", b, 40) for b in (1, 2, 3, 4, 8)] + [("P", "k6", b, 30) for b in (1, 2, 3, 5)] + [("PPI", "k4", b, 25) for b in (1, 3, 6)]
+        sims = [("PI", "k6", "{1, 2, 3, 4, 8}", 160), ("P", "k6", "{1, 2, 3, 5}", 100), ("PPI", "k4", "{1, 3, 6}", 60)]
         classes = 3
     else:
-        rot = seed % 3
-        sims = [("PI", "k6", 1, 8), ("PI", "k4", (2, 3, 4)[rot], 8), ("PI", "k6", 8, 6), ("P", "k6", (3, 2, 5)[rot], 6), ("PPI", "k4", (4, 6, 2)[rot], 5)]
+        sims = [("PI", "k6", "{1, 2, 3, 4, 8}", 20), [("P", "k6", "{1, 2, 3, 5}", 10), ("PPI", "k4", "{1, 3, 6}", 8)][seed % 2]]
         classes = 1
-    for i, (layout, keyset, bulk, num) in enumerate(sims):
-        name = "sim-%s-b%d" % (layout, bulk)
-        text = cfg(layout=layout, keyset=keyset, bulk=bulk, kinds='{"val", "del", "nix", "fut", "past"}', vals="{0, 1, 2}",
+    for i, (layout, keyset, bulks, num) in enumerate(sims):
+        name = "sim-%s" % layout
+        text = cfg(layout=layout, keyset=keyset, bulks=bulks, kinds='{"val", "del", "nix", "fut", "past"}', vals="{0, 1, 2}",
                    txmds="{FALSE, TRUE}", maxtx=7, maxent=2, export="TRUE", emit=20, nreads=6, tail=SIM_TAIL)
-        jobs[name] = pool.submit(tlc, wd, name, "MCIndex", text, 1, 600,
+        jobs[name] = pool.submit(tlc, wd, name, "MCIndex", text, 1, 900,
                                  ["-simulate", "num=%d" % num, "-depth", "22", "-seed", str(seed * 101 + i)])
 
     # ---------------------------------------------------------------- (4) real concurrent executions
@@ -147,10 +141,61 @@ def run(chk, args):
         lines = open(tf).readlines()
         res = None
         if lines:
-            res = tlc(wd, "tv-" + layout, "TraceIndex", cfg(layout=layout, maxtx=1000, tail=TV_TAIL), 1, 900, env={"VERIF_TRACE": tf})
+            res = tlc(wd, "tv-" + layout, "TraceIndex", cfg(layout=layout, maxtx=1000, tail=TV_TAIL), 1, 900, env={"VERIF_TRACE": tf},
+                      javaopts=["-Xss512m"])  # the reference is a recursion over the log
         return r, lines, res
     for layout, runs in tv_runs:
         jobs["tv-" + layout] = pool.submit(tv, layout, runs)
+
+    # ---------------------------------------------------------------- collect: replay of simulated behaviours
+    rp_jobs = []
+    for i, (layout, keyset, bulks, num) in enumerate(sims):
+        name = "sim-%s" % layout
+        res = jobs[name].result()
+        if res.error or res.violation:
+            raise MachineryFault("%s: %s %s\n%s" % (name, res.error, res.violation, res.out[-1500:]))
+        bs = vlib.printed_json(res.out)
+        if len(bs) < num // 2:
+            raise MachineryFault("%s printed only %d behaviours" % (name, len(bs)))
+        for b in bs:
+            b["origin"] = name
+        json.dump({"layout": layout, "behaviours": bs}, open(os.path.join(wd, name + ".json"), "w"))
+        chk.add_tlc(res, "%s: %d behaviours (realisable schedule, MaxBulk in %s)" % (name, len(bs), bulks))
+        nchunks = max(1, min(4, len(bs) // 5))
+        for ch in range(nchunks):
+            part = bs[ch::nchunks]
+            p = os.path.join(wd, "%s-%d.json" % (name, ch))
+            json.dump({"layout": layout, "behaviours": part}, open(p, "w"))
+            rp_jobs.append((name, len(part), pool.submit(harness, binp, ["-mode", "rp", "-in", p, "-seed", str(seed + i * 10 + ch), "-dir",
+                                                                           os.path.join(wd, "d-%s-%d" % (name, ch)), "-classes", str(classes)])))
+    # ---------------------------------------------------------------- collect: pinned transcription -> replay counterexamples
+    res = jobs["pinned"].result()
+    vlib.tlc_must_pass(res, "Index.tla with the transcription variants (counterexamples are printed, the search goes on)")
+    chk.add_tlc(res, "pinned transcription variants alias/bulkstart/rotomb, realisable schedules, MaxBulk 1..2")
+    ces = {c["sw"]: c for c in vlib.printed_json(res.out)}
+    pin_jobs = []
+    for name in pinned:
+        ce = ces.get(name)
+        if ce is None:
+            raise MachineryFault("transcription variant %s no longer produces a counterexample: Index.tla does not model the defect" % name)
+        steps = ce["steps"]
+        # the reads the real store must answer after the counterexample: everything each initialised index holds
+        q = {"op": "dump", "via": "store", "k": [], "i": 0, "f": 0, "p": [], "neq": [], "off": 0, "desc": False, "lim": 1, "seek": [], "end": [],
+             "iseek": False, "iend": False, "flt": []}
+        reads = [{"op": "read", "x": x + 1, "tx": {"es": [], "md": False}, "bulks": [], "n": ce["ts"][x], "reads": [{"q": q, "r": ce["dumps"][x]}]}
+                 for x in range(len(ce["run"])) if ce["run"][x]]
+        b = hist_to_behaviour(steps + reads, ce["indexes"], ce["maxBulk"], "tlc-counterexample:" + name)
+        p = os.path.join(wd, "pin-" + name + ".json")
+        json.dump({"layout": "PI", "behaviours": [b]}, open(p, "w"))
+        pin_jobs.append((name, steps, ce, pool.submit(harness, binp, ["-mode", "rp", "-in", p, "-seed", str(seed), "-dir", os.path.join(wd, "d-pin-" + name), "-classes", "2"])))
+    for name, steps, ce, j in pin_jobs:
+        r = j.result()
+        n_dev = len(r.get("violations") or [])
+        chk.cov.setdefault("pinned_counterexamples", {})[name] = {"steps": [s["op"] + (str(s["bulks"]) if s["bulks"] else "") for s in steps], "maxBulk": ce["maxBulk"],
+                                                                  "reproduced_on_real_code": n_dev > 0}
+        if n_dev == 0:
+            chk.notes.append({"model-drift": "counterexample of variant %s does not reproduce on the real code: the code no longer has the transcribed defect" % name})
+        vlib.absorb(chk, r)
 
     # ---------------------------------------------------------------- collect: exhaustive runs
     for name, kw, inv, workers, to in mc:
@@ -160,57 +205,18 @@ def run(chk, args):
         if res.distinct < 100:
             raise MachineryFault("%s explored only %d states" % (name, res.distinct))
 
-    # ---------------------------------------------------------------- collect: pinned transcription -> replay counterexamples
-    for name, kw in pinned:
-        res = jobs[name].result()
-        if res.error:
-            raise MachineryFault("%s: %s" % (name, res.error))
-        chk.add_tlc(res, "%s (code as pinned; counterexample expected: %s)" % (name, res.violation))
-        if res.violation != "MapAgreesX":
-            raise MachineryFault("%s: the transcription switch no longer produces a counterexample (%s): Index.tla does not model the defect" % (name, res.violation))
-        ce = vlib.printed_json(res.out)
-        if not ce:
-            raise MachineryFault("%s: counterexample not printed" % name)
-        ce = ce[0]
-        steps = ce["steps"]
-        # the reads the real store must answer after the counterexample: everything each initialised index holds
-        q = {"op": "dump", "via": "store", "k": [], "i": 0, "f": 0, "p": [], "neq": [], "off": 0, "desc": False, "lim": 1, "seek": [], "end": [],
-             "iseek": False, "iend": False, "flt": []}
-        reads = [{"op": "read", "x": x + 1, "tx": {"es": [], "md": False}, "bulks": [], "n": ce["ts"][x], "reads": [{"q": q, "r": ce["dumps"][x]}]}
-                 for x in range(len(ce["run"])) if ce["run"][x]]
-        b = hist_to_behaviour(steps + reads, ce["indexes"], kw["bulk"], "tlc-counterexample:" + name)
-        p = os.path.join(wd, name + ".json")
-        json.dump({"layout": "PI", "behaviours": [b]}, open(p, "w"))
-        r = harness(binp, ["-mode", "rp", "-in", p, "-seed", str(seed), "-dir", os.path.join(wd, "d-" + name), "-classes", "2"])
-        n_dev = len(r.get("violations") or [])
-        chk.cov.setdefault("pinned_counterexamples", {})[name] = {"steps": [s["op"] for s in steps], "reproduced_on_real_code": n_dev > 0}
-        if n_dev == 0:
-            chk.notes.append({"model-drift": "counterexample of %s does not reproduce on the real code: the code no longer has the transcribed defect" % name})
-        vlib.absorb(chk, r)
-
-    # ---------------------------------------------------------------- collect: replay of simulated behaviours
-    rp_jobs = []
-    for i, (layout, keyset, bulk, num) in enumerate(sims):
-        name = "sim-%s-b%d" % (layout, bulk)
-        res = jobs[name].result()
-        if res.error or res.violation:
-            raise MachineryFault("%s: %s %s\n%s" % (name, res.error, res.violation, res.out[-1500:]))
-        bs = vlib.printed_json(res.out)
-        if len(bs) < num // 2:
-            raise MachineryFault("%s printed only %d behaviours" % (name, len(bs)))
-        for b in bs:
-            b["origin"] = name
-        p = os.path.join(wd, name + ".json")
-        json.dump({"layout": layout, "behaviours": bs}, open(p, "w"))
-        chk.add_tlc(res, "%s: %d behaviours (realisable schedule, MaxBulk=%d)" % (name, len(bs), bulk))
-        rp_jobs.append((name, len(bs), pool.submit(harness, binp, ["-mode", "rp", "-in", p, "-seed", str(seed + i), "-dir", os.path.join(wd, "d-" + name),
-                                                                     "-classes", str(classes)])))
     per_class = {}
     for name, nb, j in rp_jobs:
         r = j.result()
         c = r.get("counters") or {}
-        per_class[name] = {"behaviours": nb, "replays": r.get("traces", 0), "steps": sum(v for k, v in c.items() if k.startswith("step:")),
-                           "reads": sum(v for k, v in c.items() if k.startswith("read:"))}
+        pc = per_class.setdefault(name, {"behaviours": 0, "replays": 0, "steps": 0, "reads": 0, "by_bulk": {}})
+        pc["behaviours"] += nb
+        pc["replays"] += r.get("traces", 0)
+        pc["steps"] += sum(v for k, v in c.items() if k.startswith("step:"))
+        pc["reads"] += sum(v for k, v in c.items() if k.startswith("read:"))
+        for k, v in c.items():
+            if k.startswith("cfg:bulk="):
+                pc["by_bulk"][k[4:]] = pc["by_bulk"].get(k[4:], 0) + v
         vlib.absorb(chk, r)
     chk.cov["replay_per_class"] = per_class
     ctr = chk.cov.get("counters", {})
@@ -227,7 +233,8 @@ def run(chk, args):
         if res is None:
             continue
         if res.error or res.violation or res.postcondition_failed:
-            raise MachineryFault("TraceIndex (%s): %s %s\n%s" % (layout, res.error, res.violation, res.out[-1500:]))
+            errs = [ln for ln in res.out.splitlines() if ln.startswith("Error:") or "TRACE-REJECTED" in ln]
+            raise MachineryFault("TraceIndex (%s): %s %s\n%s" % (layout, res.violation, "\n".join(errs[:6]), res.out[res.out.find("Error:"):][:1500]))
         chk.add_tlc(res, "TraceIndex %s: %d lines" % (layout, len(lines)))
         rep = vlib.printed_json(res.out)
         if len(rep) != 1 or rep[0]["lines"] != len(lines):
@@ -264,12 +271,16 @@ def report_rejected(chk, layout, lines, bad):
         items = ev["r"].get("items") or []
         if hdr["bulk"] > 1:
             sig = SIG_BULK % kind
-        elif ev["q"]["op"] in ("between", "scanb") and any(it.get("hc", 1) == 0 or it.get("hc", 1) > 1 << 60 for it in items):
+        elif ev["q"]["op"] in ("between", "scanb") and any(it.get("hc", 1) <= 0 for it in items):
             sig = "tbtree.lastUpdateBetween:%s:version-of-another-key-below-first-version" % ev["q"]["op"]
-        elif item["why"] != "unexplained":
+        elif item["why"] == "tombstone-not-marked-deleted":
             sig = "%s-index:tv:%s" % (kind, item["why"])
+        elif hdr.get("compactions", 0) > 0 and item["why"] == "index-time-behind-observed-progress":
+            sig = "store.CompactIndexes:concurrent-writers:index-time-regresses-while-WaitForIndexingUpto-reports-progress"
+        elif hdr.get("compactions", 0) > 0 and kind == "injective":
+            sig = "store.CompactIndexes:concurrent-writers:injective-index-built-from-regressed-source-index"
         else:
-            sig = "%s-index:tv:%s:read-equals-the-reference-at-no-index-time" % (kind, ev["q"]["op"])
+            sig = "%s-index:tv:%s:%s" % (kind, ev["q"]["op"], item["why"])
         log = [json.loads(x) for x in lines[start:n] if '"ev":"Commit"' in x]
         chk.violation(sig, "layout %s, %s: %s on index %d (%s) returned %s, which is not the value defined by the committed log at any index time in %d..%d"
                       % (layout, hdr["cfg"], json.dumps(ev["q"]), ev["x"], kind, json.dumps(ev["r"])[:400], ev["lo"], ev["hi"]),
@@ -278,8 +289,8 @@ def report_rejected(chk, layout, lines, bad):
 
 def selftest(chk, wd, binp, sims, seed):
     """one corrupted expected value must be reported; a trace with one corrupted read must be rejected"""
-    layout, keyset, bulk, num = sims[0]
-    p = os.path.join(wd, "sim-%s-b%d.json" % (layout, bulk))
+    layout, keyset, bulks, num = sims[0]
+    p = os.path.join(wd, "sim-%s.json" % layout)
     r = harness(binp, ["-mode", "rp", "-in", p, "-seed", str(seed), "-dir", os.path.join(wd, "d-self"), "-classes", "1"], env={"VERIF_SELFTEST": "1"})
     sigs = [v["sig"] for v in (r.get("violations") or [])]
     ok_rp = any(":get:wrong-tx" in s for s in sigs)
@@ -295,7 +306,7 @@ def selftest(chk, wd, binp, sims, seed):
             lines2[idx[-1]] = json.dumps(e) + "\n"
             tf2 = os.path.join(wd, "trace-self.ndjson")
             open(tf2, "w").writelines(lines2)
-            res = tlc(wd, "tv-self", "TraceIndex", cfg(layout="P", maxtx=1000, tail=TV_TAIL), 1, 900, env={"VERIF_TRACE": tf2})
+            res = tlc(wd, "tv-self", "TraceIndex", cfg(layout="P", maxtx=1000, tail=TV_TAIL), 1, 900, env={"VERIF_TRACE": tf2}, javaopts=["-Xss512m"])
             rep = vlib.printed_json(res.out)
             ok_tv = bool(rep) and any(b["line"] == idx[-1] + 1 for b in rep[0]["bad"])
     if not ok_rp or ok_tv is False:
